@@ -16,6 +16,7 @@ const SLOTS: usize = 1 << 18;
 const RZ: usize = 32;
 const QUAR: usize = 64;
 const TOMB: usize = 1;
+const HUGE: usize = 64 << 20;
 
 #[derive(Clone, Copy)]
 struct Slot { ptr: usize, size: usize, align: usize, windowed: bool }
@@ -102,7 +103,7 @@ unsafe fn raw_alloc(layout: Layout) -> *mut u8 {
     let base = System.alloc(Layout::from_size_align_unchecked(total, layout.align().max(16)));
     if base.is_null() { return base; }
     std::ptr::write_bytes(base, 0xFD, p);
-    std::ptr::write_bytes(base.add(p), 0xA5, layout.size());
+    if layout.size() <= HUGE { std::ptr::write_bytes(base.add(p), 0xA5, layout.size()); }
     std::ptr::write_bytes(base.add(p + layout.size()), 0xFD, p);
     let user = base.add(p);
     let windowed = WINDOW.load(SeqCst);
@@ -133,7 +134,7 @@ unsafe fn raw_dealloc(ptr: *mut u8, layout: Layout) -> bool {
         if *base.add(i) != 0xFD || *base.add(p + s.size + i) != 0xFD { ok = false; }
     }
     if !ok { ERRORS.fetch_add(1, SeqCst); ERR_REDZONE.fetch_add(1, SeqCst); }
-    std::ptr::write_bytes(ptr, 0xDE, s.size);
+    if s.size <= HUGE { std::ptr::write_bytes(ptr, 0xDE, s.size); }
     // quarantine
     lock();
     let t = &mut TABLE;
@@ -146,7 +147,7 @@ unsafe fn raw_dealloc(ptr: *mut u8, layout: Layout) -> bool {
         let opad = ouser - obase;
         let osize = ototal - 2 * opad;
         let mut intact = true;
-        for i in 0..osize { if *(ouser as *const u8).add(i) != 0xDE { intact = false; } }
+        if osize <= HUGE { for i in 0..osize { if *(ouser as *const u8).add(i) != 0xDE { intact = false; } } }
         if !intact { ERRORS.fetch_add(1, SeqCst); ERR_POISON.fetch_add(1, SeqCst); }
         System.dealloc(obase as *mut u8, Layout::from_size_align_unchecked(ototal, oalign));
     }
